@@ -16,8 +16,8 @@ EXTENDS C14_Defs
 
 CONSTANTS Shapes,   \* sequence of sequences of label-sequences, e.g. << <<"a">>, <<"a","b">>, <<"b">> >>
           Vals      \* the entries
-VARIABLES shape, data, done
-vars == <<shape, data, done>>
+VARIABLES shape, Net, Z, done     \* Net and Z are computed once, in Init (TLC re-evaluates definitions)
+vars == <<shape, Net, Z, done>>
 
 NEntries(sh) == SumI(LAMBDA i : Size([k \in DOMAIN sh[i] |-> 2]), 1, Len(sh))
 Offset(sh, i) == SumI(LAMBDA j : Size([k \in DOMAIN sh[j] |-> 2]), 1, i - 1)
@@ -28,15 +28,14 @@ NetOf(sh, d) ==
 Names(sh) == [i \in DOMAIN sh |-> <<"t1", "t2", "t3", "t4", "t5", "t6">>[i]]
 
 Init == /\ shape \in DOMAIN Shapes
-        /\ data \in [1..NEntries(Shapes[shape]) -> Vals]
+        /\ \E data \in [1..NEntries(Shapes[shape]) -> Vals] : Net = NetOf(Shapes[shape], data)
+        /\ Z = ZOf(Net)
         /\ done = FALSE
-Check == ~done /\ done' = TRUE /\ UNCHANGED <<shape, data>>
+Check == ~done /\ done' = TRUE /\ UNCHANGED <<shape, Net, Z>>
 Spec == Init /\ [][Check]_vars
 
-Net == NetOf(Shapes[shape], data)
 Nm == Names(Shapes[shape])
 E == HyperEdges(Net, Nm)
-Z == ZOf(Net)
 
 \* message tensor -> label and label -> tensor
 MTI(i, x) == ExactMsg(Net, Nm, E, Nm[i], x, x)
